@@ -118,9 +118,9 @@ type netSim struct {
 	ord      int64
 
 	wire, lostN, queueDrop, dupN, reordN int64
-	lastTSeq                            uint16
-	haveTSeq                            bool
-	sentSeqs                            [][]uint16 // per stream: recent numbers put on the wire
+	lastTSeq                             uint16
+	haveTSeq                             bool
+	sentSeqs                             [][]uint16 // per stream: recent numbers put on the wire
 }
 
 func newNetSim(s *scenario, r *vf.Rand, start time.Time) *netSim {
